@@ -945,6 +945,8 @@ func (c *callable) Value(env *env) reflect.Value {
 					}
 				}
 				err = &fatalError{msg: msg}
+			} else if env.ctx != nil && err == env.ctx.Err() {
+				err = stopError{err}
 			}
 			panic(err)
 		}
